@@ -42,6 +42,13 @@ func genMultiTask(r *kern.Rng, maxLen int) MultiTask {
 	sc.Src = genSrc(r, false)
 	sc.Del = genDelivery(r)
 	sc.Reads = genReads(r)
+	if r.Pct(40) {
+		// a recycled Reader: earlier stream, Close, Reset onto this one
+		p := genPrior(r, pkg)
+		p.Close = r.Pct(70)
+		sc.Prior = []scen.Prior{p}
+	}
+	sc.CloseEnd = r.Pct(30)
 	return MultiTask{R: sc}
 }
 
